@@ -34,6 +34,7 @@ class Cfg:
         self.p_neg = p_neg
         self.size = size
         self.ngroups = 0
+        self.p_exhaust = 0.0      # chance to keep a negated class that excludes the whole letters alphabet
 
 
 # ------------------------------------------------------------------ generation
@@ -54,13 +55,19 @@ def gen_pattern(cfg):
 def _gen_alt_or_seq(cfg, depth, budget):
     r = cfg.r
     if depth > 0 and r.random() < 0.3:
-        n = r.randint(2, 3)
+        n = r.choice((2, 2, 3, 3, 4, 6))
         branches = []
         for _ in range(n):
             if r.random() < 0.12:
                 branches.append({"k": "seq", "items": []})
             else:
                 branches.append(_gen_seq(cfg, depth - 1, budget))
+        if r.random() < 0.2:
+            # branches with a common literal prefix / suffix: CPython's parser factors prefixes out
+            pre = [{"k": "lit", "c": c} for c in r.choice(("a", "ab", "x1", "_"))]
+            for b in branches:
+                if r.random() < 0.8:
+                    b["items"] = [dict(x) for x in pre] + b["items"]
         return {"k": "alt", "branches": branches}
     return _gen_seq(cfg, depth, budget)
 
@@ -164,14 +171,14 @@ def _gen_class(cfg):
             elif y < 0.8:
                 lo, hi = r.choice((("a", "c"), ("a", "z"), ("A", "Z"), ("0", "9"), ("0", "3"),
                                    ("x", "z"), (" ", "/"), ("!", "~"), ("a", "a"), ("Z", "a"),
-                                   (" ", "~"), ("5", "A")))
+                                   (" ", "~"), ("5", "A"), ("\x00", "\x7f") if r.random() < 0.2 else ("b", "y")))
                 items.append({"k": "range", "a": lo, "b": hi})
             else:
                 items.append({"k": "cat", "c": r.choice("dw")})
         neg = r.random() < cfg.p_neg
         node = {"k": "class", "neg": neg, "items": items}
-        if neg and not (set(cfg.letters) - class_members(node)):
-            continue   # complement must meet the run's alphabet, else nothing *can* be generated
+        if neg and not (set(cfg.letters) - class_members(node)) and r.random() >= cfg.p_exhaust:
+            continue   # complement normally meets the run's alphabet (else nothing ASCII *can* be generated)
         return node
     return {"k": "class", "neg": False, "items": [{"k": "lit", "c": "a"}]}
 
@@ -591,3 +598,24 @@ def rep_nesting(ast):
             return d(n["body"])
         return 0
     return d(ast["body"])
+
+
+def negclass_exhausts(ast, letters):
+    """True if some negated class of the pattern excludes every character of `letters`."""
+    found = []
+
+    def walk(n):
+        k = n["k"]
+        if k == "class":
+            if n["neg"] and not (set(letters) - class_members(n)):
+                found.append(1)
+        elif k == "seq":
+            for i in n["items"]:
+                walk(i)
+        elif k == "alt":
+            for b in n["branches"]:
+                walk(b)
+        elif k in ("group", "rep"):
+            walk(n["body"])
+    walk(ast["body"])
+    return bool(found)
